@@ -1,6 +1,7 @@
 import Driver.CacheDriver
 import Driver.StoreDriver
 import Driver.ArgDriver
+import Driver.RunnerDriver
 open Driver
 
 def main (args : List String) : IO UInt32 := do
@@ -9,5 +10,6 @@ def main (args : List String) : IO UInt32 := do
   match args with
   | ["cache"] => loop CacheDriver.stepLine stdin stdout (Memento.Cache.init 0); return 0
   | ["arghash"] => loop ArgDriver.stepLine stdin stdout (); return 0
+  | ["runner"] => loop RunnerDriver.stepLine stdin stdout {}; return 0
   | ["store"] => loop StoreDriver.stepLine stdin stdout StoreDriver.St.none; return 0
   | _ => IO.eprintln "usage: mmodel <model>"; return 2
